@@ -99,6 +99,7 @@ CompareMsg(where, m, spec, skip, obs, raw, ga, la) ==
     IN  /\ IF obs.m = m THEN TRUE ELSE Note(where @@ [what |-> "message type", expected |-> m, observed |-> obs.m])
         /\ \A s \in bad :
              Note(where @@ [what |-> "field", m |-> m, s |-> s, kf |-> kf(s),
+                            fromcsd |-> (m = 20 /\ "csd" \in DOMAIN raw /\ raw.csd),   \* the record carries compressed_speed_distance: speed / distance are derived
                             expected |-> IF s \in DOMAIN spec THEN spec[s] ELSE Absent,
                             observed |-> IF s \in DOMAIN of THEN of[s] ELSE Absent])
 
@@ -269,6 +270,9 @@ FinishFile ==
        /\ IF dec.mode \in {"full"} /\ dec.hdr.st = "ok" THEN
               IF HasFile THEN CompareFile(final)
               ELSE IF final = "either" THEN TRUE ELSE Note(Where @@ [what |-> "no file returned"])
+          ELSE IF dec.mode = "full" /\ dec.hdr.st = "trunc" /\ HasFile
+          THEN Note(Where @@ [what |-> "slot count", slot |-> "(whole file)", expected |-> 0, observed |-> Obs.nmsgs,
+                              detail |-> "a File is returned for an input that ends inside its header"])
           ELSE TRUE
        /\ IF dec.mode \in {"header", "fileid"} /\ final = "accept" /\ Call.ret.err = 0 THEN
               /\ IF HdrEq(dec.hdr, Call.ret.hdr[1]) THEN TRUE ELSE Note(Where @@ [what |-> "returned header", expected |-> dec.hdr, observed |-> Call.ret.hdr[1]])
